@@ -16,7 +16,8 @@ LEVEL = "exploration"
 EXHAUSTIVE = {"quick": True, "thorough": True}
 RULE = (
     "all 186 shapes (extents 1..12 in 1-D, 1..7 in 2-D, 1..5 in 3-D) with scalar and list voxel sizes, "
-    "plus grids derived from random images through generate_grid; case = (source, shape, voxel-size kind); "
+    "plus grids derived from random images through generate_grid and call histories of generate_grid over images that "
+    "share dimensionality, voxel count and physical dimensions but not shape; case = (source, shape, voxel-size kind); "
     "non-trivial = the grid has at least one face; distinct by (shape, voxel-size kind, source)"
 )
 TOLERANCES = {"all index tables": "exact (integers)", "face_vol / voxel_size": "1e-14 relative"}
@@ -197,6 +198,32 @@ def run_shard(spec, R):
             )
             if k == 0:
                 R.sample({"image": desc, "grid_shape": list(g.shape)})
+    # ---- call histories of generate_grid: images that agree in dimensionality, total voxel count and
+    # physical dimensions but differ in shape, in random order and with repetitions (a memoised or
+    # otherwise stale grid would show up on a later call)
+    import itertools
+
+    for hno, total in enumerate([12, 16, 24, 30, 36]):
+        if hno % spec["nshards"] != spec["shard"] % 5 or not R.want(["history", total]):
+            continue
+        for dim in (1, 2, 3):
+            shapes_h = [sh for sh in itertools.product(range(1, total + 1), repeat=dim) if int(np.prod(sh)) == total and max(sh) <= 12]
+            if not shapes_h:
+                continue
+            dims_h = [float(rng.uniform(0.5, 4)) for _ in range(dim)]
+            order = [shapes_h[i] for i in rng.permutation(len(shapes_h))]
+            order = order + order[:3]
+            for sh in order:
+                im = darsia.Image(np.zeros(sh), space_dim=dim, dimensions=list(dims_h), scalar=True)
+                src[0] = "generate_grid:history"
+                ok, g = R.guarded("grid_constructible", lambda: darsia.generate_grid(im))
+                if ok:
+                    R.check(tuple(g.shape) == tuple(sh) and np.allclose(np.asarray(g.voxel_size, float), np.array(dims_h) / np.array(sh), rtol=1e-14)
+                            and int(g.num_cells) == total, "image_grid_matches_image",
+                            {"history_total": total, "shape": list(sh), "grid_shape": list(g.shape), "dimensions": dims_h})
+                    if tuple(g.shape) == tuple(sh):
+                        judge_grid(R, g, "generate_grid:history")
+                    R.sig(["history", total, dim, list(sh)], True, cls="generate_grid:history")
     R.count("contract_evaluations", R.counters.get("grid_constructed", 0))
 
 
